@@ -7,6 +7,7 @@ script path (core/stores/redis/redis.go) the model `scriptRun` / `pingResult` wa
 import GoZero.Extracted.C03
 import GoZero.C03.LuaSem
 import GoZero.C03.ScriptRun
+import GoZero.C03.ProofsMonitor
 namespace GoZero.C03.TieSem
 open GoZero.C03
 open GoZero.C03.Lua
@@ -159,5 +160,208 @@ theorem tie_ping :
     (∀ v : String, pingResult true (some v) = (v == "PONG")) := by
   refine ⟨by decide, by decide, ?_⟩
   intro v; simp [pingResult]
+
+/-! ### round 5: the delegating entry points, semantically -/
+
+/-- value of a forwarded argument -/
+inductive FVal where
+  | bg                  -- `context.Background()`
+  | wall                -- `time.Now()`
+  | lit (v : Nat)       -- an integer literal in the source
+  | val (v : Nat)       -- the caller's value of a parameter (a time in ns, a size, a key …)
+  | ctx (k : CtxKind)   -- the caller's context
+  deriving DecidableEq
+
+/-- an unsigned decimal literal -/
+def litNat (a : String) : Option Nat :=
+  if a.toList ≠ [] ∧ a.toList.all Char.isDigit then some (a.toList.foldl (fun acc c => acc * 10 + (c.toNat - 48)) 0) else none
+
+/-- an argument expression of the source under the caller's actual parameter values -/
+def evalFwd (params : List String) (actuals : List FVal) (a : String) : Option FVal :=
+  if a = "context.Background()" then some .bg
+  else if a = "time.Now()" then some .wall
+  else match litNat a with
+    | some v => some (.lit v)
+    | none => (params.zip actuals).lookup a
+
+def evalFwds (params : List String) (actuals : List FVal) (args : List String) : Option (List FVal) :=
+  args.mapM (evalFwd params actuals)
+
+/-- the argument list that reaches `reserveN(ctx, now, n)`; `w` = what `time.Now()` reads -/
+def fwdReserve (w : Nat) : List FVal → Option ReserveArgs
+  | [c, t, n] =>
+    match (match c with | .bg => some CtxKind.background | .ctx k => some k | _ => none),
+          (match t with | .wall => some w | .val v => some v | _ => none),
+          (match n with | .lit v => some v | .val v => some v | _ => none) with
+    | some c, some t, some n => some ⟨c, t, n⟩
+    | _, _, _ => none
+  | _ => none
+
+/-- **What reaches `reserveN` through each public entry point, for all actual arguments** — the extracted argument
+lists composed along the call chain are the model's `allowArgs` / `allowCtxArgs` / `allowNArgs` / `allowNCtxArgs`
+(a dropped `n`, a dropped context, a literal other than 1, a stale clock instead of `time.Now()` break this), and
+`Take(key)` is `TakeCtx(context.Background(), key)`. -/
+theorem tie_entry_points_sem (w ns n key : Nat) (k : CtxKind) :
+    ((evalFwds allowNFwdParams [.val ns, .val n] allowNFwdArgs).bind (fwdReserve w) = some (allowNArgs ns n)) ∧
+    ((evalFwds allowNCtxFwdParams [.ctx k, .val ns, .val n] allowNCtxFwdArgs).bind (fwdReserve w) = some (allowNCtxArgs k ns n)) ∧
+    (((evalFwds allowFwdParams [] allowFwdArgs).bind fun a => evalFwds allowNFwdParams a allowNFwdArgs).bind (fwdReserve w)
+      = some (allowArgs w)) ∧
+    (((evalFwds allowCtxFwdParams [.ctx k] allowCtxFwdArgs).bind fun a => evalFwds allowNCtxFwdParams a allowNCtxFwdArgs).bind (fwdReserve w)
+      = some (allowCtxArgs k w)) ∧
+    (evalFwds takeFwdParams [.val key] takeFwdArgs = some [.bg, .val key]) := by
+  have h1 : litNat "now" = none := by decide
+  have h2 : litNat "n" = none := by decide
+  have h3 : litNat "ctx" = none := by decide
+  have h4 : litNat "key" = none := by decide
+  have h5 : litNat "1" = some 1 := by decide
+  refine ⟨?_, ?_, ?_, ?_, ?_⟩ <;>
+    simp [h1, h2, h3, h4, h5, evalFwds, evalFwd, fwdReserve, allowNFwdParams, allowNFwdArgs, allowNCtxFwdParams, allowNCtxFwdArgs,
+      allowFwdParams, allowFwdArgs, allowCtxFwdParams, allowCtxFwdArgs, takeFwdParams, takeFwdArgs,
+      allowNArgs, allowNCtxArgs, allowArgs, allowCtxArgs, List.lookup, List.zip]
+
+/-! ### round 5: NewTokenLimiter, semantically -/
+
+/-- `fmt.Sprintf(format, key)` for a format with `%s` verbs only -/
+def sprintfL : List Char → List Char → List Char
+  | '%' :: 's' :: rest, key => key ++ sprintfL rest key
+  | c :: rest, key => c :: sprintfL rest key
+  | [], _ => []
+
+def sprintfS (format key : String) : String := String.ofList (sprintfL format.toList key.toList)
+
+/-- **The constructor's arithmetic and key derivation for all arguments**: the interval of the rescue limiter is
+`TCfg.ival` (`time.Second/time.Duration(rate)`, truncating), its size is `burst` (not `rate`), and the two Redis keys are
+the model's `newTokenCfg` keys for EVERY caller key (`fmt.Sprintf` of the two extracted formats). -/
+theorem tie_newTokenLimiter_sem (rate burst : Nat) (key : String) :
+    rescueEveryNs rate burst = ((newTokenCfg rate burst key).ival : Int) ∧
+    rescueBurst rate burst = (burst : Int) ∧
+    sprintfS tokenFormat key = (newTokenCfg rate burst key).k1 ∧
+    sprintfS timestampFormat key = (newTokenCfg rate burst key).k2 := by
+  have h1 : tokenFormat.toList = ['{', '%', 's', '}', '.', 't', 'o', 'k', 'e', 'n', 's'] := by decide
+  have h2 : timestampFormat.toList = ['{', '%', 's', '}', '.', 't', 's'] := by decide
+  refine ⟨?_, rfl, ?_, ?_⟩
+  · show Int.tdiv 1000000000 (rate : Int) = ((1000000000 / rate : Nat) : Int)
+    rw [Int.tdiv_eq_ediv_of_nonneg (by decide)]; rfl
+  · apply String.ext; simp [sprintfS, h1, sprintfL, newTokenCfg]
+  · apply String.ext; simp [sprintfS, h2, sprintfL, newTokenCfg]
+
+/-! ### round 5: the order of effects of startMonitor / waitForRedis as a typed list
+
+The interleaving model `Mon` (ProofsMonitor.lean) gives every row of `startMonitor` and every event of the monitor
+goroutine an effect on the shared state (mutex, monitorStarted, redisAlive, number of monitor goroutines).  Here the
+extracted statement skeletons are translated to a TYPED instruction list, the list is interpreted as a sequence of
+effects, and that sequence is proven equal to the sequence of state changes the model makes when one goroutine runs the
+function alone from start to end — for both outcomes of the `monitorStarted` check.  A statement moved to another place
+(seeded changes C03-2 / C03-4: `redisAlive = 0` before the check / before the Lock) changes the sequence. -/
+
+inductive Eff where
+  | acquire | release        -- rescueLock
+  | started (b : Bool)       -- monitorStarted := b
+  | alive (b : Bool)         -- redisAlive := b
+  | spawn                    -- one more goroutine in waitForRedis' loop
+  deriving DecidableEq, Repr
+
+inductive MI where
+  | lock | unlock | deferUnlock | retIfStarted | setStarted (b : Bool) | storeAlive (b : Bool) | goWait
+  | ret | pingLoop (body : List MI) | deferBlock (body : List MI) | other
+  deriving Repr
+
+/-- statement skeleton → typed instructions (`none`: a statement outside the vocabulary) -/
+def parseMI : Nat → List String → Option (List MI × List String)
+  | 0, _ => none
+  | fuel + 1, ss =>
+    match ss with
+    | [] => some ([], [])
+    | "}" :: rest => some ([], "}" :: rest)
+    | "if lim.monitorStarted {" :: "return" :: "}" :: rest => (parseMI fuel rest).map fun r => (.retIfStarted :: r.1, r.2)
+    | "defer func{" :: rest =>
+      match parseMI fuel rest with
+      | some (body, "}" :: rest) => (parseMI fuel rest).map fun r => (.deferBlock body :: r.1, r.2)
+      | _ => none
+    | "for range ticker.C {" :: "if lim.store.Ping() {" :: rest =>
+      match parseMI fuel rest with
+      | some (body, "}" :: "}" :: rest) => (parseMI fuel rest).map fun r => (.pingLoop body :: r.1, r.2)
+      | _ => none
+    | st :: rest =>
+      let i : Option MI :=
+        if st = "lim.rescueLock.Lock()" then some .lock
+        else if st = "lim.rescueLock.Unlock()" then some .unlock
+        else if st = "defer lim.rescueLock.Unlock()" then some .deferUnlock
+        else if st = "lim.monitorStarted = true" then some (.setStarted true)
+        else if st = "lim.monitorStarted = false" then some (.setStarted false)
+        else if st = "atomic.StoreUint32(&lim.redisAlive, 0)" then some (.storeAlive false)
+        else if st = "atomic.StoreUint32(&lim.redisAlive, 1)" then some (.storeAlive true)
+        else if st = "go lim.waitForRedis()" then some .goWait
+        else if st = "return" then some .ret
+        else if st = "ticker := time.NewTicker(…)" ∨ st = "ticker.Stop()" then some .other
+        else none
+      match i with
+      | some i => (parseMI fuel rest).map fun r => (i :: r.1, r.2)
+      | none => none
+
+/-- effects of a straight run of an instruction list; `started` = what the `monitorStarted` check reads; deferred
+work runs at the return, in reverse order of registration.  Result: (effects so far, deferred effects, returned?) -/
+def runMI (started : Bool) : Nat → List MI → List Eff → List Eff × List Eff × Bool
+  | 0, _, d => ([], d, true)
+  | _ + 1, [], d => ([], d, false)
+  | fuel + 1, i :: rest, d =>
+    let cont (e : List Eff) (d : List Eff) := let r := runMI started fuel rest d; (e ++ r.1, r.2.1, r.2.2)
+    match i with
+    | .lock => cont [.acquire] d
+    | .unlock => cont [.release] d
+    | .deferUnlock => cont [] (.release :: d)
+    | .retIfStarted => if started then ([], d, true) else cont [] d
+    | .setStarted b => cont [.started b] d
+    | .storeAlive b => cont [.alive b] d
+    | .goWait => cont [.spawn] d
+    | .ret => ([], d, true)
+    | .other => cont [] d
+    | .deferBlock body => cont [] ((runMI started fuel body []).1 ++ d)
+    | .pingLoop body =>
+      -- the successful ping: the body runs once (a failed ping has no effect on the shared state)
+      let r := runMI started fuel body d
+      if r.2.2 then r else cont r.1 r.2.1
+
+def effectsOf (started : Bool) (shape : List String) : Option (List Eff) :=
+  match parseMI (shape.length + 1) shape with
+  | some (prog, []) => let r := runMI started (4 * shape.length + 4) prog []; some (r.1 ++ r.2.1)
+  | _ => none
+
+/-- the effect of one model step on the shared state -/
+def diffEff (a b : Mon.St) : List Eff :=
+  (if a.lock = .free ∧ b.lock ≠ .free then [Eff.acquire] else []) ++
+  (if a.started ≠ b.started then [Eff.started b.started] else []) ++
+  (if a.alive ≠ b.alive then [Eff.alive b.alive] else []) ++
+  (if a.nLoop < b.nLoop then [Eff.spawn] else []) ++
+  (if a.lock ≠ .free ∧ b.lock = .free then [Eff.release] else [])
+
+/-- goroutine 0 runs `startMonitor` alone, from entering it until it is idle again -/
+def callerTrace (s : Mon.St) : Nat → List Eff
+  | 0 => []
+  | fuel + 1 =>
+    match Mon.step false s (.caller 0) with
+    | some s' => diffEff s s' ++ (if s'.pc 0 = .idle then [] else callerTrace s' fuel)
+    | none => []
+
+/-- the monitor goroutine's successful ping and its deferred function -/
+def monitorTrace (s : Mon.St) : List Mon.Ev → List Eff
+  | [] => []
+  | e :: es =>
+    match Mon.step false s e with
+    | some s' => diffEff s s' ++ monitorTrace s' es
+    | none => []
+
+/-- **The statements of `startMonitor` and `waitForRedis`, in the order of the source, have the effects of the model's
+rows, in the model's order**: lock, (return under the lock if a monitor is marked started), `monitorStarted = true`
+BEFORE `redisAlive = 0` BEFORE the goroutine is started, unlock last; the monitor stores `redisAlive = 1` first and only
+then takes the lock to clear `monitorStarted`. -/
+theorem tie_monitor_effects_sem :
+    effectsOf false startMonitorShape = some (callerTrace Mon.init 10) ∧
+    effectsOf true startMonitorShape = some (callerTrace { Mon.init with started := true } 10) ∧
+    effectsOf false waitForRedisShape
+      = some (monitorTrace { Mon.init with started := true, alive := false, nLoop := 1 } [.pingOk, .monLock, .monClear, .monUnlock]) ∧
+    callerTrace Mon.init 10 = [.acquire, .started true, .alive false, .spawn, .release] ∧
+    callerTrace { Mon.init with started := true } 10 = [.acquire, .release] := by
+  refine ⟨?_, ?_, ?_, ?_, ?_⟩ <;> decide
 
 end GoZero.C03.TieSem
